@@ -302,6 +302,9 @@ class CFG:
 
     def dominates(self, a: int, b: int, exc: bool = False) -> bool:
         d = self.dominators(exc)
+        if not exc and (b not in d or a not in d):
+            # nodes that live only in exception handlers are reachable through exceptional edges only
+            d = self.dominators(True)
         return b in d and a in d[b]
 
     def postdominators(self) -> Dict[int, Set[int]]:
